@@ -216,11 +216,12 @@ func Parenthesize(n *Node) *Node {
 // mark lexeme indexes before which no line break may be placed.
 type Flat struct {
 	Lex     []string
-	NoBreak map[int]bool // index of a '.', '!.' or call '(' lexeme
+	NoBreak map[int]bool // index of a '.', '!.' or call '(' lexeme, and of member names
+	Postfix map[int]bool // index of a '.', '!.' or call '(' lexeme only (a line break before it is illegal)
 }
 
 func Flatten(n *Node) *Flat {
-	f := &Flat{NoBreak: map[int]bool{}}
+	f := &Flat{NoBreak: map[int]bool{}, Postfix: map[int]bool{}}
 	f.emit(n)
 	return f
 }
@@ -250,12 +251,14 @@ func (f *Flat) emit(n *Node) {
 	case "sel":
 		f.emit(n.Kids[0])
 		f.NoBreak[len(f.Lex)] = true
+		f.Postfix[len(f.Lex)] = true
 		f.tok(n.Op)
 		f.NoBreak[len(f.Lex)] = true // a line break between '.' and the name is left open
 		f.tok(n.S)
 	case "call":
 		f.emit(n.Kids[0])
 		f.NoBreak[len(f.Lex)] = true
+		f.Postfix[len(f.Lex)] = true
 		f.tok("(")
 		for i, a := range n.Kids[1:] {
 			if i > 0 {
